@@ -449,6 +449,56 @@ target(Y + '_remap_name', area='Yaqlized', owners=['C07'], name='remap_name',
        model='Yaql.Yaqlized.remapName settings name', theorem='remap_name_src_eq')
 
 
+# ------------------------------------------------------------------------------------------------ C02 factory.py
+REC = '@Yaql.OpTable.Rec'
+OPTY = '@Yaql.OpTable.OpType'
+UNIVERSES['Yaql.OpTable.OpType'] = dict(structural_eq=True, codec=('Yaql.Drv.SrcOp.decOpType', 'Yaql.Drv.SrcOp.decOpType'))
+UNIVERSES['Yaql.OpTable.Rec'] = dict(
+    structural_eq=True,
+    len='(Yaql.PyOp.recLen {0})',
+    index_const={0: ('(Yaql.PyOp.recSym? {0})', 'str', True), 1: ('(Yaql.PyOp.recType? {0})', OPTY, True),
+                 2: ('(Yaql.PyOp.recAlias? {0})', 'str?', True)},
+    inject={'[]': 'Yaql.OpTable.Rec.sep',
+            '(str, %s, str?)' % OPTY: '(Yaql.OpTable.Rec.op {0}.1 {0}.2.1 {0}.2.2)'},
+    codec=('Yaql.Drv.SrcOp.decRec', 'Yaql.Drv.SrcOp.encRec'),
+)
+py2lean.GLOBAL_CONSTS.update({
+    'OperatorType.BINARY_LEFT_ASSOCIATIVE': ('Yaql.OpTable.OpType.binaryLeft', OPTY),
+    'OperatorType.BINARY_RIGHT_ASSOCIATIVE': ('Yaql.OpTable.OpType.binaryRight', OPTY),
+    'OperatorType.PREFIX_UNARY': ('Yaql.OpTable.OpType.prefixUnary', OPTY),
+    'OperatorType.SUFFIX_UNARY': ('Yaql.OpTable.OpType.suffixUnary', OPTY),
+    'OperatorType.NAME_VALUE_PAIR': ('Yaql.OpTable.OpType.nameValue', OPTY),
+})
+area('OpTable', imports=['Yaql.Model.PyPrelude', 'Yaql.Model.PyOp', 'Yaql.Model.OpTable'])
+target('yaql.language.factory:YaqlFactory.insert_operator', area='OpTable', owners=['C02'], raises=True, fuel=True,
+       fuel_expr='self_operators.length + 1',
+       state=[('self.operators', '[%s]' % REC)],
+       params=[('existing_operator', 'str?'), ('existing_operator_binary', 'bool'), ('new_operator', 'str'),
+               ('new_operator_type', OPTY), ('create_group', 'bool'), ('new_operator_alias', 'str?')], ret='unit',
+       model='Yaql.PyOp.liftErr (Yaql.OpTable.insertOperator self_operators existing_operator existing_operator_binary '
+             'new_operator new_operator_type create_group new_operator_alias)',
+       theorem='insert_operator_src_eq', diff=False,
+       note='a method in state-passing style: `self.operators` is a parameter and the result')
+
+
+# ------------------------------------------------------------------------------------------------ C05 / C06 runner.py
+PARAM = '@Yaql.Resolve.Param'
+PTY = '@Yaql.Types.PTy'
+LAT = [('L', 'Yaql.Types.Lattice')]
+UNIVERSES['Yaql.Resolve.Param'] = dict(fields={'value_type': ('{self}.ty', PTY)})
+UNIVERSES['Yaql.Types.PTy'] = dict(
+    methods={'is_specialization_of': Prim('(Yaql.Types.isSpecializationOf {L} {self} {0})', [PTY], BOOL)})
+area('Resolve', imports=['Yaql.Model.PyPrelude', 'Yaql.Model.Resolve'])
+MAPPING = '([%s], {str: %s})' % (PARAM, PARAM)
+target('yaql.language.runner:_is_specialization_of', area='Resolve', owners=['C05', 'C06'], raises=True, ambient=LAT,
+       name='is_specialization_of', diff=False,
+       params=[('mapping1', MAPPING), ('mapping2', MAPPING)], ret='bool',
+       model='.ok (Yaql.Resolve.isSpecM L ⟨mapping1.1, mapping1.2⟩ ⟨mapping2.1, mapping2.2⟩)',
+       theorem='is_specialization_of_src_eq',
+       note='holds when both mappings bind the same keyword names in the same order (both come from one call) and the '
+            'names are distinct: hypotheses of the theorem')
+
+
 def by_area():
     out = {}
     for t in TARGETS:
